@@ -118,5 +118,5 @@ where
     cover!(s, al == 0 && bl as u32 == w, "zero-length against full-length");
     cover!(s, i as u32 >= w, "bit index beyond the width");
     cover!(s, exp_len == 0 && al > 0 && bl > 0, "nothing in common");
-    cover!(s, KEEPS && ar != mask_at(ar, al, w), "host bits set");
+    cover!(s, ar != mask_at(ar, al, w), "host bits set in the argument of from_repr_len");
 }
